@@ -375,7 +375,8 @@ class SgzConverter(SgzReader):
                                 buffer[u*self.chunk_bytes + z*self.unit_bytes:
                                        u*self.chunk_bytes + (z+1)*self.unit_bytes]
                         outfile.write(new_block)
-            self.read_variant_headers()
+            # Keep the zero entries of unpopulated grid positions: footer arrays cover the whole grid
+            self.read_variant_headers(include_padding=True)
             # Footer arrays are located by position, in header-word table order (not in the order they were loaded)
             for k in self.stored_header_keys:
                 header_array = self.variant_headers[k]
